@@ -57,6 +57,8 @@ def _small_c07(args):
             out.append(x_arith.observe_arith(fx, np, [pid], op, tx, ty, cxs, cys, route=r))
         # repr method gives the same exact results
         out.append(x_arith.observe_arith(fx, np, [pid], op, tx, ty, cxs, cys, route='operator', method='repr'))
+        # operands with a history (sticky overflow/underflow/inaccuracy flags already raised)
+        out.append(x_arith.observe_arith(fx, np, [pid], op, tx, ty, cxs, cys, route=routes[(idx + j + 1) % 3], dirty=True))
     # scalar corner calls (per-element flags) and broadcasting (scalar with array, 2-D with 1-D)
     for op in ('add', 'sub', 'mul'):
         for a in corners(tx)[:4]:
@@ -79,7 +81,7 @@ def _broadcast(fx, np, pid, tx, ty):
             base = {'k': 'arith', 'p': [pid], 'op': op, 'x': dict(zip('swf', tx)), 'y': dict(zip('swf', ty)), 'sizing': 'optimal',
                     'method': 'raw', 'route': 'operator', 'xm': {'r': 'trunc', 'o': 'saturate'}, 'ym': {'r': 'trunc', 'o': 'saturate'},
                     'target': 'none', 'tf': {'s': False, 'w': 0, 'f': 0}, 'tm': {'r': 'trunc', 'o': 'saturate'}, 'agg': True,
-                    'carrier': 'broadcast'}
+                    'carrier': 'broadcast', 'dirty': False, 'opi': False}
             try:
                 X = x_arith.mk(fx, np, tx, xs)
                 Y = x_arith.mk(fx, np, ty, b)
@@ -232,7 +234,8 @@ def _wide_c07(args):
             cys = [y for _ in a for y in b]
             out.append(x_arith.observe_arith(fx, np, [pid], op, tx, ty, cxs, cys, route=rng.choice(['operator', 'function', 'numpy']),
                                              method=rng.choice(['raw', 'raw', 'repr'])))
-            out.append(x_arith.observe_arith(fx, np, [pid], op, tx, ty, [rng.choice(a)], [rng.choice(b)], scalar=True))
+            out.append(x_arith.observe_arith(fx, np, [pid], op, tx, ty, [rng.choice(a)], [rng.choice(b)], scalar=True,
+                                             dirty=rng.random() < 0.5))
         # random expression tree of depth <= 4 over + - * : every node is one judged row
         pool = [(tx, rng.choice(_codes(rng, tx, 2))), (ty, rng.choice(_codes(rng, ty, 2)))]
         for _ in range(rng.randint(2, 6)):
